@@ -364,6 +364,7 @@ def seed_selection(sc, real, mode=""):
     count = int(sc.extra_args.get("-p", 3))
     margin = int(sc.extra_args.get("-ma", 16000))
     out = []
+    nref = len(sc.refs)
     prim = {}
     for x in real["primary"]:
         prim.setdefault((x["qid"], x["shift"], x["n"]), []).append(x)
@@ -371,20 +372,34 @@ def seed_selection(sc, real, mode=""):
     for s in real["seeds"]:
         if "cstart" not in s:
             return []
-        seeds.setdefault((s["qid"], s["shift"], s["n"]), {})[s["idx"]] = s
+        seeds.setdefault((s["qid"], s["shift"], s["n"]), []).append(s)
     for key, items in prim.items():
-        if len(items) % 2:
-            continue            # a run that aborted in the middle of a query
-        allp = []
-        for i, it in enumerate(items):
-            rev = bool(i % 2)   # dispatched forward, then reverse, per reference
-            for pos, score in it["peaks"]:
-                allp.append((it["ref"], rev, pos, score))
-        want = sorted(allp, key=lambda p: -p[3])[:count]            # stable
-        got = [(s["ref"], bool(s["rev"]), s["cstart"] + margin) for i, s in sorted(seeds.get(key, {}).items())]
-        if got != [(a, b, c) for a, b, c, d in want]:
-            out.append((f"query {key[0]} (labels {key[1]}+{key[2]}): seeds refined {got} are not the {count} highest-scoring primary "
-                        f"peaks in descending order {[(a, b, c) for a, b, c, d in want]}", None, f"{mode}/seeds"))
+        # one molecule can be processed more than once under the same key (a second-pass fragment that is the whole
+        # molecule again): split both captures into rounds, in arrival order
+        per = 2 * nref
+        if per == 0 or len(items) % per:
+            continue            # a run that aborted in the middle of a query / references filtered by -rId
+        prounds = [items[i:i + per] for i in range(0, len(items), per)]
+        srounds = []
+        for s in seeds.get(key, []):
+            if s["idx"] == 0 or not srounds:
+                srounds.append([])
+            srounds[-1].append(s)
+        # rounds without any seed leave no trace in the seed capture: only compare when the two captures line up
+        with_peaks = [r for r in prounds if any(it["peaks"] for it in r)]
+        if len(with_peaks) != len(srounds):
+            continue
+        for rnd, got_s in zip(with_peaks, srounds):
+            allp = []
+            for i, it in enumerate(rnd):
+                rev = bool(i % 2)   # dispatched forward, then reverse, per reference
+                for pos, score in it["peaks"]:
+                    allp.append((it["ref"], rev, pos, score))
+            want = sorted(allp, key=lambda p: -p[3])[:count]            # stable
+            got = [(s["ref"], bool(s["rev"]), s["cstart"] + margin) for s in sorted(got_s, key=lambda s: s["idx"])]
+            if got != [(a, b, c) for a, b, c, d in want]:
+                out.append((f"query {key[0]} (labels {key[1]}+{key[2]}): seeds refined {got} are not the {count} highest-scoring primary "
+                            f"peaks in descending order {[(a, b, c) for a, b, c, d in want]}", None, f"{mode}/seeds"))
     for key in seeds:
         if key not in prim:
             out.append((f"query {key[0]}: seeds were refined although no primary correlation was dispatched", None, f"{mode}/seeds"))
